@@ -5,6 +5,7 @@
 From Coq Require Import ZArith Reals List Bool Lra.
 From Rubato.Model Require Import Num Reals Base Kernels Async.
 From Rubato.Proofs Require Import KernelsR KernelErr KernelSim64 KernelSim32.
+From Rubato.Proofs Require KernelFin64 KernelFin32.
 From Flocq Require Import Core BinarySingleNaN.
 From Rubato.Model Require Floats.
 Import ListNotations.
@@ -79,6 +80,21 @@ Theorem C15_kernels_close_f32 : forall k1 k2 (w s : list (binary_float 24 128)) 
   <= 2 * (((1 + uu) ^ (2 * n + 7) - 1) * dot (map Rabs (map B2R w)) (map Rabs (map B2R s)) + INR (16 * n + 7) * (1 + uu) ^ (2 * n + 7) * ee).
 Proof. exact KernelSim32.kernels_close_B. Qed.
 
+(** ... and overflow cannot happen for products of magnitude at most 1 and filters of up to 32768 taps (audio samples and
+    windowed-sinc coefficients are far inside this range; Proofs/KernelFin64.v, KernelFin32.v prove finiteness from an a-priori
+    magnitude bound for any P and n), so there the bound holds with no finiteness hypothesis *)
+Theorem C15_kernel_finite_unit_f64 : forall kind (w s : list (binary_float 53 1024)) n,
+  (n <= 4096)%nat -> length w = (8 * n)%nat ->
+  Forall2 (fun x y => is_finite x = true /\ is_finite y = true /\ Rabs (B2R x * B2R y) <= 1) w s ->
+  is_finite (@kernel Floats.CB Floats.S64 kind w s) = true.
+Proof. exact KernelFin64.kernel_finite_unit. Qed.
+
+Theorem C15_kernel_finite_unit_f32 : forall kind (w s : list (binary_float 24 128)) n,
+  (n <= 4096)%nat -> length w = (8 * n)%nat ->
+  Forall2 (fun x y => is_finite x = true /\ is_finite y = true /\ Rabs (B2R x * B2R y) <= 1) w s ->
+  is_finite (@kernel Floats.CB Floats.S32 kind w s) = true.
+Proof. exact KernelFin32.kernel_finite_unit. Qed.
+
 (* non-vacuity: a finite bit-exact kernel result *)
 Theorem C15_finite_example :
   is_finite (@kernel Floats.CB Floats.S64 KAvx64 (map (Floats.b_of_Z 53 1024) [1;2;3;4;5;6;7;8]%Z) (map (Floats.b_of_Z 53 1024) [1;1;1;1;1;1;1;1]%Z)) = true.
@@ -95,3 +111,5 @@ Print Assumptions C15_kernel_error_f64.
 Print Assumptions C15_kernel_error_f32.
 Print Assumptions C15_kernels_close_f64.
 Print Assumptions C15_kernels_close_f32.
+Print Assumptions C15_kernel_finite_unit_f64.
+Print Assumptions C15_kernel_finite_unit_f32.
